@@ -53,6 +53,19 @@ def prev_program(name):
         solving.solve(c.pep)
     elif name == "raises":
         try:
+            c = models.build(_spec("block"))
+            c.pep.solve(verbose=0, solver="CLARABEL", dimension_reduction_heuristic="nope")
+        except Exception:
+            pass
+        try:
+            from PEPit import PEP, Point
+            p = PEP()
+            part = p.declare_block_partition(d=3)
+            part.get_block(Point(), 1)
+            part.get_block(Point(), 7)         # raises half-way through building
+        except Exception:
+            pass
+        try:
             # a solve that raises WHILE the class constraints are being generated (mu = L: division by L - mu)
             from PEPit import PEP
             from PEPit.functions import SmoothStronglyConvexFunction
@@ -64,19 +77,6 @@ def prev_program(name):
             p0.set_initial_condition((x00 - xs0) ** 2 <= 1)
             p0.set_performance_metric((x00 - xs0) ** 2)
             p0.solve(verbose=0, solver="CLARABEL")
-        except Exception:
-            pass
-        try:
-            c = models.build(_spec("block"))
-            c.pep.solve(verbose=0, solver="CLARABEL", dimension_reduction_heuristic="nope")
-        except Exception:
-            pass
-        try:
-            from PEPit import PEP, Point
-            p = PEP()
-            part = p.declare_block_partition(d=3)
-            part.get_block(Point(), 1)
-            part.get_block(Point(), 7)         # raises half-way through building
         except Exception:
             pass
     elif name == "twice":
